@@ -38,6 +38,10 @@ def rand_addr(rng):
     k = rng.random()
     if k < 0.06 and colliding_exporters():
         return rng.choice(colliding_exporters())
+    if k < 0.12:
+        # 4-octet addresses whose hex form has no letter (100.64.0.1 = 64400001, 16.32.48.64, 1.2.3.4): with an id of the same kind
+        # (256 = 0100) the cache key reads as a decimal number; it is a key like any other
+        return bytes(rng.choice([0x00, 0x01, 0x10, 0x16, 0x20, 0x32, 0x40, 0x48, 0x64, 0x99, 0x07]) for _ in range(4))
     if k < 0.4:
         return bytes(rng.randrange(256) for _ in range(4))
     if k < 0.6:
